@@ -1,6 +1,7 @@
 //! Reference codec, layout tables, generators and shared monitor plumbing.
 pub mod codec;
 pub mod cp437;
+pub mod engine;
 pub mod evidence;
 pub mod gen;
 pub mod layout;
